@@ -414,7 +414,7 @@ func c10Tasks(tier string) []Task {
 	shardsIdx := []int{1, 2, 4, 16}
 	dbL, dbB := 3, 2
 	if tier == "thorough" {
-		l, b, maxKeys = 5, 3, 6
+		l, b, maxKeys = 4, 3, 6
 		dbL, dbB = 4, 2
 	}
 	var tasks []Task
@@ -658,7 +658,7 @@ func init() {
 			if tier == "quick" {
 				return map[string]any{"subsets": "<=4 of 6 keys", "index_level": "l=3 b=2, shards 1/2/4/16", "db_level": "l=3 b=2, shards 1/16, 5 prefixes", "seek_targets": len(c10Targets)}
 			}
-			return map[string]any{"subsets": "all 64", "index_level": "l=5 b=3, shards 1/2/4/16", "db_level": "l=4 b=2, shards 1/16, 5 prefixes", "seek_targets": len(c10Targets)}
+			return map[string]any{"subsets": "all 64", "index_level": "l=4 b=3, shards 1/2/4/16", "db_level": "l=4 b=2, shards 1/16, 5 prefixes", "seek_targets": len(c10Targets)}
 		},
 		Replay: func(raw json.RawMessage) {
 			var r c10Replay
